@@ -9,7 +9,7 @@ INFO = {
     'functions': ['parse(), pastify(), evaluate(), update(), reset() of the four specification kinds', 'set_variable_to_ast_from_dataset of the four interpreters',
                   'every visit* that raises for an unsupported construct (discrete online, dense offline, dense online visitors, pastifiers)'],
     'bounds': {'quick': 'supported: every operator x monitor kind on 1-, 2- and 4-sample traces with symbolic values, with a declared-but-unused and a supplied-but-undeclared '
-                        'variable and every order of the inputs; unsupported: operator x monitor-kind table (unbounded future online, prev/next/s_prev/s_next/rise/fall in dense time, '
+                        'variable and every order of the inputs; timed dense operators with windows over 3-4 sampling steps on 5-sample concrete grids; unsupported: operator x monitor-kind table (unbounded future online, prev/next/s_prev/s_next/rise/fall in dense time, '
                         'bounded future and bounded until in the dense online monitor), bare and nested under another operator',
                'thorough': 'longer traces, unsupported constructs nested at depth 2, bounds variety'},
     'outside': 'malformed data (wrong shapes, NaN, decreasing time-stamps); object-typed variables',
@@ -18,7 +18,7 @@ INFO = {
 }
 
 
-def h_supported(f, N, kind, extra='none', order=0):
+def h_supported(f, N, kind, extra='none', order=0, grid=None):
     f = T(f)
     vs = sorted(variables(f))
 
@@ -46,7 +46,7 @@ def h_supported(f, N, kind, extra='none', order=0):
             return [('returns-values', A.bool(ok))]
         s = ct.make_spec({'ct-offline': 'offline', 'ct-online': 'online', 'ct-combined-off': 'combined', 'ct-combined-on': 'combined'}[kind],
                          'out = ' + text(f), decl)
-        sigs = {v: ct.signal(env, v, N, 'zero') for v in supplied}
+        sigs = {v: ct.signal(env, v, N, 'zero', grid=grid) for v in supplied}
         args = [[v, [list(p) for p in sigs[v]]] for v in perm]
         if kind in ('ct-offline', 'ct-combined-off'):
             out = s.evaluate(*args)
@@ -158,6 +158,19 @@ def obligations(tier, rng):
                 for extra in (['none', 'both'] if N == 2 and len(variables(f)) == 1 else ['none']):
                     out.append(ob('C17', 'supported', 'ok/%s/%s/N=%d/%s' % (kind, text(f), N, extra), f=f, N=N, kind=kind, extra=extra, order=N + 1,
                                   max_paths=30000, wall=900))
+    # windows spanning several sampling steps: 5 samples on concrete regular/irregular grids, values symbolic
+    for g in ([[0, 1, 2, 3, 4], [0, 0.5, 2, 2.5, 4.5]] if quick else [[0, 1, 2, 3, 4], [0, 0.5, 2, 2.5, 4.5], [0, 1, 2, 3, 4, 5], [0, 2, 3, 3.5, 4, 7]]):
+        for k in refsem.UNT:
+            for a, b in [(0, 3), (1, 4), (2, 3)]:
+                f = (k, X, a, b)
+                for kind in ['ct-offline'] + ([] if refsem.has_future(f) else ['ct-online']) + ([] if quick else ['ct-combined-off']):
+                    out.append(ob('C17', 'supported', 'wide/%s/%s/grid=%s' % (kind, text(f), ','.join(map(str, g))), f=f, N=len(g), kind=kind, grid=g,
+                                  max_paths=30000, wall=900))
+    for k in ('since_t', 'until_t'):
+        for a, b in ([(0, 3)] if quick else [(0, 3), (1, 3)]):
+            f = (k, X, Y, a, b)
+            for kind in ['ct-offline'] + ([] if k == 'until_t' else ['ct-online']):
+                out.append(ob('C17', 'supported', 'wide/%s/%s/grid=0,1,2,3' % (kind, text(f)), f=f, N=4, kind=kind, grid=[0, 1, 2, 3], max_paths=30000, wall=900))
     # input orders
     for order in range(6):
         out.append(ob('C17', 'supported', 'order/dt-online/%d' % order, f=('since', ('and', X, Y), Z), N=3, kind='dt-online', extra='none', order=order))
